@@ -805,7 +805,8 @@ func (y *yieldDS) Read(ctx context.Context, store string, f storage.ReadFilter, 
 
 // Max > 0: the server's ListObjects max-results; the request then stops early, which cancels the
 // pipeline's context and exercises teardown under cancellation (Close / drain)
-type cfgT struct{ Chunk, Buf, Procs, Max int }
+// DL > 0: the server's ListObjects deadline in seconds (default 40).
+type cfgT struct{ Chunk, Buf, Procs, Max, DL int }
 
 type e2eEnv struct {
 	ds      *yieldDS
@@ -824,6 +825,10 @@ func (e *e2eEnv) srv(c cfgT) *server.Server {
 	if s, ok := e.servers[c]; ok {
 		return s
 	}
+	dl := 40
+	if c.DL > 0 {
+		dl = c.DL
+	}
 	s := server.MustNewServerWithOpts(
 		server.WithDatastore(e.ds),
 		server.WithExperimentals("pipeline_list_objects"),
@@ -831,7 +836,7 @@ func (e *e2eEnv) srv(c cfgT) *server.Server {
 		server.WithListObjectsChunkSize(c.Chunk),
 		server.WithListObjectsBufferCapacity(c.Buf),
 		server.WithListObjectsNumProcs(c.Procs),
-		server.WithListObjectsDeadline(40*time.Second),
+		server.WithListObjectsDeadline(time.Duration(dl)*time.Second),
 		server.WithListObjectsMaxResults(uint32(c.Max)),
 	)
 	e.servers[c] = s
@@ -850,6 +855,8 @@ type e2eCase struct {
 	Conc   int        `json:"conc"`
 	Procs  int        `json:"gomaxprocs"`
 	NT     *bool      `json:"nt,omitempty"`
+	Heavy  string     `json:"heavy,omitempty"` // high-volume scenario: regenerated from Seed on replay
+	Watch  int        `json:"watch,omitempty"` // watchdog in seconds (default 60)
 }
 
 // genModel builds a cyclic authorization model and the universe of objects
@@ -996,28 +1003,34 @@ func genTuples(r *rec.Rand, model *openfgav1.AuthorizationModel, types []string,
 	return out
 }
 
-var cfgPool = []cfgT{{1, 1, 1, 0}, {1, 2, 3, 0}, {2, 1, 2, 0}, {3, 8, 1, 0}, {100, 128, 3, 0}, {1, 128, 8, 0}, {2, 2, 2, 0}, {100, 1, 1, 0},
-	{1, 1, 1, 1}, {1, 2, 3, 2}, {2, 1, 2, 1}, {100, 128, 3, 1}}
+var cfgPool = []cfgT{{1, 1, 1, 0, 0}, {1, 2, 3, 0, 0}, {2, 1, 2, 0, 0}, {3, 8, 1, 0, 0}, {100, 128, 3, 0, 0}, {1, 128, 8, 0, 0}, {2, 2, 2, 0, 0}, {100, 1, 1, 0, 0},
+	{1, 1, 1, 1, 0}, {1, 2, 3, 2, 0}, {2, 1, 2, 1, 0}, {100, 128, 3, 1, 0}}
 
-func runE2E(w *rec.Writer, env *e2eEnv, c e2eCase, storeCounter *int) {
+// runE2E returns false when some request failed, hung or returned a set of the wrong size
+func runE2E(w *rec.Writer, env *e2eEnv, c e2eCase, storeCounter *int) (good bool) {
+	good = true
+	watch := 60
+	if c.Watch > 0 {
+		watch = c.Watch
+	}
 	ctx := context.Background()
 	model, err := parser.TransformDSLToProto(c.DSL)
 	if err != nil {
 		w.Stat("e2e_dsl_error", 1)
-		return
+		return true
 	}
 	*storeCounter++
 	st, err := env.ref.CreateStore(ctx, &openfgav1.CreateStoreRequest{Name: fmt.Sprintf("c21-%d", *storeCounter)})
 	if err != nil {
 		w.Stat("e2e_store_error", 1)
-		return
+		return true
 	}
 	storeID := st.GetId()
 	wm, err := env.ref.WriteAuthorizationModel(ctx, &openfgav1.WriteAuthorizationModelRequest{
 		StoreId: storeID, SchemaVersion: model.GetSchemaVersion(), TypeDefinitions: model.GetTypeDefinitions(), Conditions: model.GetConditions()})
 	if err != nil {
 		w.Stat("e2e_model_invalid", 1)
-		return
+		return true
 	}
 	modelID := wm.GetAuthorizationModelId()
 	model.Id = modelID
@@ -1026,7 +1039,7 @@ func runE2E(w *rec.Writer, env *e2eEnv, c e2eCase, storeCounter *int) {
 		pipeline = true
 	}
 	if c.Tuples == nil {
-		return
+		return true
 	}
 	for i := 0; i < len(c.Tuples); i += 40 {
 		j := min(i+40, len(c.Tuples))
@@ -1037,7 +1050,7 @@ func runE2E(w *rec.Writer, env *e2eEnv, c e2eCase, storeCounter *int) {
 		if _, err := env.ref.Write(ctx, &openfgav1.WriteRequest{StoreId: storeID, AuthorizationModelId: modelID,
 			Writes: &openfgav1.WriteRequestWrites{TupleKeys: tks}}); err != nil {
 			w.Stat("e2e_write_error", 1)
-			return
+			return true
 		}
 	}
 	// reference: the objects the real Check allows
@@ -1062,7 +1075,7 @@ func runE2E(w *rec.Writer, env *e2eEnv, c e2eCase, storeCounter *int) {
 			TupleKey: &openfgav1.CheckRequestTupleKey{Object: o, Relation: c.Rel, User: c.User}})
 		if err != nil {
 			w.Stat("e2e_check_error_skipped", 1)
-			return
+			return true
 		}
 		if resp.GetAllowed() {
 			expected = append(expected, o)
@@ -1098,7 +1111,7 @@ func runE2E(w *rec.Writer, env *e2eEnv, c e2eCase, storeCounter *int) {
 				select {
 				case o := <-done:
 					outs[q] = o
-				case <-time.After(60 * time.Second):
+				case <-time.After(time.Duration(watch) * time.Second):
 					outs[q] = outT{code: 2}
 				}
 			}(q)
@@ -1113,8 +1126,14 @@ func runE2E(w *rec.Writer, env *e2eEnv, c e2eCase, storeCounter *int) {
 			switch o.code {
 			case 1:
 				w.Stat("e2e_list_error", 1)
+				good = false
 			case 2:
 				w.Stat("e2e_hang", 1)
+				good = false
+			default:
+				if cfg.Max == 0 && len(o.objs) != len(expected) {
+					good = false
+				}
 			}
 		}
 		w.Stat("e2e_requests", c.Conc)
@@ -1131,7 +1150,14 @@ func runE2E(w *rec.Writer, env *e2eEnv, c e2eCase, storeCounter *int) {
 		w.Stat("e2e_nonempty_expected", 1)
 	}
 	w.Stat("e2e_expected_objects", len(expected))
-	w.Case(c, rec.I(4), rec.Bool(pipeline), rec.LS(expected), rec.L(runs...))
+	var desc any = c
+	if c.Heavy != "" {
+		desc = map[string]any{"kind": 7, "seed": c.Seed, "heavy": c.Heavy, "cfgs": c.Cfgs, "expected": len(expected)}
+		w.Stat("e2e_heavy_cases", 1)
+		w.Stat("e2e_heavy_expected_objects", len(expected))
+	}
+	w.Case(desc, rec.I(4), rec.Bool(pipeline), rec.LS(expected), rec.L(runs...))
+	return good
 }
 
 func kindE2E(w *rec.Writer, env *e2eEnv, seed uint64, storeCounter *int, thorough bool) {
@@ -1211,16 +1237,37 @@ func main() {
 				for rep := 0; rep < 5; rep++ {
 					runE2E(w, env, c, &stores)
 				}
+			case 5:
+				for rep := 0; rep < 8; rep++ {
+					kindFault(w, c.Seed)
+				}
+			case 6:
+				kindQueueConfig(w)
+			case 7:
+				kindHeavy(w, env, c.Seed, &stores)
 			}
 		}
 		return
 	}
 	r := rec.NewRand(o.Seed)
+	kindQueueConfig(w)
+	// volume first: a few high-volume cyclic scenarios (stop at the first one that goes wrong:
+	// a wedged pipeline costs its whole deadline)
+	nheavy := 4 + o.N/400
+	for i := 0; i < nheavy; i++ {
+		if !kindHeavy(w, env, r.Uint64(), &stores) {
+			w.Stat("e2e_heavy_stopped_after_failure", 1)
+			break
+		}
+	}
 	for i := 0; i < o.N; i++ {
 		kindPool(w, r.Uint64())
 		kindGroup(w, r.Uint64())
 		kindProto(w, r.Uint64())
 		kindProto(w, r.Uint64())
+	}
+	for i := 0; i < 24+o.N/10; i++ {
+		kindFault(w, r.Uint64())
 	}
 	ne2e := o.N / 6
 	for i := 0; i < ne2e; i++ {
